@@ -3,6 +3,7 @@
 package main
 
 import (
+	"errors"
 	"fmt"
 	"math"
 	"time"
@@ -221,12 +222,95 @@ var tests = []test{
 			}
 		}
 	}},
+	{"instances built from closures of one function literal, and over interface types with nil values, stay the instances they were given", func(r *drv.Result) {
+		// many instances from ONE function literal with different captured values, all alive at once and used in
+		// interleaved order: each is the operation it was given (a table keyed by the code of the function would mix them up)
+		sepOp := func(sep string) func(a, b string) string { return func(a, b string) string { return a + sep + b } }
+		addK := func(k int) func(a, b int) int { return func(a, b int) int { return a*k - b } }
+		seps := []string{"|", ",", "", "-", "|"}
+		var ms []monoid.Monoid[string]
+		var sgs []semigroup.Semigroup[string]
+		var mis, mfs []monoid.Monoid[int]
+		var cmps []ord.Ord[int]
+		var eqs []eq.Eq[int]
+		for i, sp := range seps {
+			ms = append(ms, monoid.FromOp("e", sepOp(sp)))
+			sgs = append(sgs, semigroup.From[string](sepOp(sp)))
+			mis = append(mis, monoid.FromOp(7, addK(i+2)))
+			mfs = append(mfs, monoid.From[int](7, semigroup.From[int](addK(i+2))))
+			k := i + 2
+			cmps = append(cmps, ord.From[int](func(a, b int) ord.Ordering { return native(a, k*b) }))
+			eqs = append(eqs, eq.From[int](func(a, b int) bool { return a == k*b }))
+		}
+		for round := 0; round < 2; round++ {
+			for i := len(seps) - 1; i >= 0; i-- {
+				k := i + 2
+				for _, a := range []string{"", "a", "ab"} {
+					for _, b := range []string{"", "b"} {
+						r.Evaluations++
+						if got, got2 := ms[i].Combine(a, b), sgs[i].Combine(a, b); got != a+seps[i]+b || got2 != a+seps[i]+b || ms[i].Empty() != "e" {
+							viol(r, "closures/monoid", "instance %d of 5 built by monoid.FromOp / semigroup.From from closures of one function literal (separator %q): Combine(%q,%q) = %q / %q, want %q", i, seps[i], a, b, got, got2, a+seps[i]+b)
+						}
+					}
+				}
+				for _, a := range []int{-3, 0, 1, 2, 6} {
+					for _, b := range []int{-1, 0, 1, 3} {
+						r.Evaluations++
+						if mis[i].Combine(a, b) != a*k-b || mfs[i].Combine(a, b) != a*k-b || mis[i].Empty() != 7 {
+							viol(r, "closures/monoid", "instance %d (k=%d) of monoid.FromOp/From over closures of one literal: Combine(%d,%d) = %d / %d, want %d", i, k, a, b, mis[i].Combine(a, b), mfs[i].Combine(a, b), a*k-b)
+						}
+						if cmps[i].Compare(a, b) != native(a, k*b) || eqs[i].Equal(a, b) != (a == k*b) {
+							viol(r, "closures/from", "instance %d (k=%d) of ord.From / eq.From over closures of one literal: Compare(%d,%d) = %d, Equal = %v; the wrapped functions give %d, %v", i, k, a, b, cmps[i].Compare(a, b), eqs[i].Equal(a, b), native(a, k*b), a == k*b)
+						}
+					}
+				}
+			}
+		}
+		// ContraMap whose source type is an interface (error, fmt.Stringer, any) with nil among the values: the projection is
+		// total on nil, and the result is the base instance on the projected values - nil is not special-cased
+		text := func(e error) string {
+			if e == nil {
+				return "~" // sorts after every letter
+			}
+			return e.Error()
+		}
+		length := func(x any) int {
+			if s, ok := x.(string); ok {
+				return len(s)
+			}
+			return 5
+		}
+		errsv := []error{nil, errors.New("a"), errors.New("b"), errors.New("~"), errors.New("")}
+		anys := []any{nil, "", "abc", "abcde", 7, "abcdefg"}
+		desc := ord.From[string](func(a, b string) ord.Ordering { return native(b, a) })
+		oe := ord.ContraMap[string, error]{Ord: ord.String, ContraMap: pure.ContraMap[string, error](text)}
+		od := ord.ContraMap[string, error]{Ord: desc, ContraMap: pure.ContraMap[string, error](text)}
+		ee := eq.ContraMap[string, error]{Eq: eq.String, ContraMap: pure.ContraMap[string, error](text)}
+		oa := ord.ContraMap[int, any]{Ord: ord.Int, ContraMap: pure.ContraMap[int, any](length)}
+		ea := eq.ContraMap[int, any]{Eq: eq.Int, ContraMap: pure.ContraMap[int, any](length)}
+		for _, a := range errsv {
+			for _, b := range errsv {
+				r.Evaluations++
+				if oe.Compare(a, b) != native(text(a), text(b)) || od.Compare(a, b) != native(text(b), text(a)) || ee.Equal(a, b) != (text(a) == text(b)) {
+					viol(r, "ContraMap/interface", "ContraMap over error values (nil projected to \"~\"): Compare(%v,%v) = %d (descending base: %d), Equal = %v; the base instances on the projections give %d, %d, %v", a, b, oe.Compare(a, b), od.Compare(a, b), ee.Equal(a, b), native(text(a), text(b)), native(text(b), text(a)), text(a) == text(b))
+				}
+			}
+		}
+		for _, a := range anys {
+			for _, b := range anys {
+				r.Evaluations++
+				if oa.Compare(a, b) != native(length(a), length(b)) || ea.Equal(a, b) != (length(a) == length(b)) {
+					viol(r, "ContraMap/interface", "ContraMap over any values (nil and non-strings projected to 5): Compare(%v,%v) = %d, Equal = %v; the base instances on the projections give %d, %v", a, b, oa.Compare(a, b), ea.Equal(a, b), native(length(a), length(b)), length(a) == length(b))
+				}
+			}
+		}
+	}},
 }
 
 func main() {
 	drv.Main(drv.Property{
 		ID: "C17", Level: "exploration", PanicIsViolation: true, MemLimitGB: 4,
-		Rule:        "exhaustive over fixed alphabets: 9 boundary ints (MinInt..MaxInt) and 13 strings (empty, prefixes, case, non-ASCII, NUL, 0xff) - all pairs and all triples for eq.Int/ord.Int/eq.String/ord.String against ==, <, >; From wrappers with deliberately asymmetric functions; ContraMap over 24 records with 4 projections and asymmetric base instances; monoid.From/FromOp/semigroup.From with subtraction and separator-concatenation; one case per instance family, every case non-trivial (each contains argument pairs on which a swapped or dropped argument changes the answer)",
+		Rule:        "exhaustive over fixed alphabets: 9 boundary ints (MinInt..MaxInt) and 13 strings (empty, prefixes, case, non-ASCII, NUL, 0xff) - all pairs and all triples for eq.Int/ord.Int/eq.String/ord.String against ==, <, >; From wrappers with deliberately asymmetric functions; ContraMap over 24 records with 4 projections and asymmetric base instances; monoid.From/FromOp/semigroup.From with subtraction and separator-concatenation; five instances of every constructor built from closures of one function literal, alive together and used in interleaved order; ContraMap over interface-typed sources (error, any) with nil among the values and a descending base order; one case per instance family, every case non-trivial (each contains argument pairs on which a swapped or dropped argument changes the answer)",
 		Assumptions: []string{"values outside the alphabets are not covered (the instances are the Go operators on comparable/ordered types; the alphabets contain every boundary)"},
 		Cases: func(string) (int, func(int) string) {
 			return len(tests), func(i int) string { return tests[i].name }
